@@ -105,7 +105,7 @@ def main(run):
                            flavour='s3', post=restore_all)      # over the real S3 adapter, paged listings
     traces += many_snapshots(run, ['shared', 'plain'] if quick else rc.ALL_GRAPHS, range(run.seed * 10, run.seed * 10 + (1 if quick else 3)), 13 if quick else 34)
     traces += stale_knowledge(run, ['shared', 'plain', 'mixed'] if quick else rc.ALL_GRAPHS, range(run.seed * 10, run.seed * 10 + (1 if quick else 4)))
-    traces += stale_knowledge(run, ['shared'] if quick else ['shared', 'mixed', 'chain'], range(run.seed * 10 + 7, run.seed * 10 + 8), wide=True, caches=('__private__',))
+    traces += stale_knowledge(run, ['shared'] if quick else ['shared', 'mixed'], range(run.seed * 10 + 7, run.seed * 10 + 8), wide=True, caches=('__private__',))
     rc.validate(run, traces, CLAUSES, label='c02.histories')
     run.coverage['rule'] = ('a case is one command history (key graph x seed), one stale-knowledge scenario (key graph x cache arrangement) or one replayed TLC behaviour; non-trivial = '
                             'more than 10 backend events / more than 2 replayed commands; distinct by the command sequence')
